@@ -53,9 +53,13 @@ SYS_KEYS = ("timestamp_submit", "timestamp_gather")
 def py_number(v, pytype):
     import numpy as np
 
+    NPTYPES = {"npfloat32": np.float32, "npfloat16": np.float16, "npfloat64": np.float64}
+
     if isinstance(v, str):
         x = float(v)  # "nan" | "inf" | "-inf"
-        return np.float64(x) if pytype.startswith("np") else x
+        return NPTYPES[pytype](x) if pytype in NPTYPES else np.float64(x) if pytype.startswith("np") else x
+    if pytype in NPTYPES and not isinstance(v, (bool, int)):
+        return NPTYPES[pytype](v)     # only generated for values that the narrow type holds exactly
     if isinstance(v, bool):
         return v
     if isinstance(v, int) and abs(v) >= 2 ** 62:
@@ -105,7 +109,11 @@ def build_output(spec):
 
 def is_failure_spec(spec):
     o = spec["obj"]
-    return "s" in o or ("n" in o and isinstance(o["n"], str))
+    return "s" in o or ("n" in o and isinstance(o["n"], str)) or ("t" in o and any(isinstance(v, str) for v in o["t"]))
+
+
+def finite_tuple(o):
+    return "t" in o and not any(isinstance(v, str) for v in o["t"])
 
 
 # ------------------------------------------------------------------ running the implementation
@@ -346,7 +354,7 @@ def obj_numbers(spec):
     o, form, pt = spec["obj"], spec["form"], spec.get("pytype", "float")
     if "n" in o and not isinstance(o["n"], str):
         return [number_cell(o["n"], pt, form in ("plain", "prof"))[1]]
-    if "t" in o:
+    if finite_tuple(o):
         return [number_cell(v, pt, False)[1] for v in o["t"]]
     return []
 
@@ -361,6 +369,8 @@ def enc_job(idx, case, obs, tok, den):
             robj = [0, [0, int(obj_numbers(spec)[0] * den)]]
     elif "s" in o:
         robj = [1, tok.text(o["s"])]
+    elif not finite_tuple(o):
+        robj = [3]                    # a tuple / list with a non-finite member
     else:
         robj = [2, [int(x * den) for x in obj_numbers(spec)]]
     emd = lambda m: [[tok.key(k), enc_cell(c, tok, den)] for k, c in m]
@@ -493,7 +503,7 @@ def features(case, obs):
             seen.add(i)
             first_order.append(i)
     call1 = set(i for d in obs["dumps"] if d["call"] == 0 for i in d["pre"])
-    multi = any("t" in spec(i)["obj"] for i in obs["finished"])
+    multi = any(finite_tuple(spec(i)["obj"]) for i in obs["finished"])
     ints = [v for o in outs for v in (o["obj"].get("t", []) + [o["obj"].get("n", 0)]) if isinstance(v, int) and not isinstance(v, bool)]
     return dict(
         big_int=any(abs(v) >= 2 ** 63 for v in ints),
@@ -636,7 +646,7 @@ def check_table_in(case, obs, prev):
 def expected_objcols(case, fin):
     for i in fin:
         o = case["outs"][i % len(case["outs"])]["obj"]
-        if "t" in o:
+        if finite_tuple(o):
             return [[2, k] for k in range(len(o["t"]))]
     return [[1]]
 
@@ -676,15 +686,24 @@ def gen_md(rng):
 
 
 def gen_out(rng, multi, fail, style):
+    narrow = ["npfloat32", "npfloat16", "npfloat64"]
     if fail:
         r = rng.random()
-        obj = {"s": rng.choice(LABELS)} if r < 0.75 else {"n": rng.choice(["nan", "inf", "-inf"])}
+        if multi and r > 0.85:
+            # a non-finite member in a tuple / list (python float or a numpy float of any width)
+            t = [gen_number(rng, "grid") for _ in range(multi)]
+            t[rng.randrange(multi)] = rng.choice(["nan", "inf", "-inf"])
+            obj = {"t": t, "aslist": rng.random() < 0.4}
+        else:
+            obj = {"s": rng.choice(LABELS)} if r < 0.7 else {"n": rng.choice(["nan", "inf", "-inf"])}
     elif multi:
         obj = {"t": [gen_number(rng, "edge_multi" if style == "edge" else style) for _ in range(multi)], "aslist": rng.random() < 0.4}
     else:
         obj = {"n": gen_number(rng, style)}
     form = rng.choice(["plain", "plain", "dict", "dictmd", "prof", "profdict", "profdictmd"])
     spec = dict(form=form, obj=obj, pytype=rng.choice(["float", "float", "int", "npfloat", "npint"]))
+    if (fail or style in ("grid", "int")) and rng.random() < 0.35:
+        spec["pytype"] = rng.choice(narrow)   # grid / int values are exact in float16; a non-finite value exists in every width
     if not fail and not multi and rng.random() < 0.06:
         # a python bool is a Number: falsy / truthy objective through the scalar forms (float(output))
         spec["obj"], spec["form"], form = {"n": rng.random() < 0.5}, rng.choice(["plain", "prof"]), None
@@ -767,7 +786,7 @@ def shrink(case):
                     o2 = copy.deepcopy(o)
                     del o2[key][k]
                     yield dict(case, outs=outs[:i] + [o2] + outs[i + 1:])
-        if "t" in o["obj"]:
+        if finite_tuple(o["obj"]):
             o2 = copy.deepcopy(o)
             o2["obj"]["t"] = [float(k) for k in range(len(o["obj"]["t"]))]
             if o2 != o:
